@@ -123,6 +123,47 @@ def make_resource(trace, idx, spec, asgi):
     return type('Res%d' % idx, (), ns)()
 
 
+def make_middleware(mw, asgi):
+    """A middleware that pre-sets state on the response (status and/or an Allow header) before the responder
+    runs, from process_request or process_resource - the way apps set defaults they expect responders to override."""
+    def touch(resp):
+        if mw.get('status'):
+            resp.status = mw['status']
+        if mw.get('allow') is not None:
+            resp.set_header('Allow', mw['allow'])
+    ns = {}
+    if mw['hook'] == 'request':
+        if asgi:
+            async def process_request(self, req, resp):
+                touch(resp)
+        else:
+            def process_request(self, req, resp):
+                touch(resp)
+        ns['process_request'] = process_request
+    else:
+        if asgi:
+            async def process_resource(self, req, resp, resource, params):
+                touch(resp)
+        else:
+            def process_resource(self, req, resp, resource, params):
+                touch(resp)
+        ns['process_resource'] = process_resource
+    return type('PresetMiddleware', (), ns)()
+
+
+def untouched_status(cfg, cls, falsy_resource=False):
+    """Statuses a response may carry when whatever ran does not set one itself (the generated responders and
+    sinks, a static route serving a whole file)."""
+    mw = cfg.get('mw')
+    if not mw or not mw.get('status'):
+        return (200,)
+    if mw['hook'] == 'request':
+        return (mw['status'],)
+    if cls == 'responder':          # process_resource only runs for a matched route
+        return (mw['status'], 200) if falsy_resource else (mw['status'],)    # falsy resources: C03's business
+    return (200,)
+
+
 class Built:
     """One configuration: the real app and the model, fed the same operations step by step."""
 
@@ -132,7 +173,14 @@ class Built:
         self.asgi = cfg['stack'] == 'asgi'
         self.trace = []
         cls = falcon.asgi.App if self.asgi else falcon.App
-        self.app = cls(sink_before_static_route=cfg['sink_first'])
+        kw = {}
+        if cfg.get('mw'):
+            kw['middleware'] = [make_middleware(cfg['mw'], self.asgi)]
+            if cfg['mw'].get('dependent'):
+                kw['independent_middleware'] = False
+        if cfg.get('own_router'):
+            kw['router'] = falcon.routing.CompiledRouter()
+        self.app = cls(sink_before_static_route=cfg['sink_first'], **kw)
         self.resources = [make_resource(self.trace, i, spec, self.asgi) for i, spec in enumerate(cfg['resources'])]
         self.model = M.Model(cfg['sink_first'], [set(s['callable']) for s in cfg['resources']], DIRS)
         self.nops = 0
@@ -143,10 +191,10 @@ class Built:
         kind = op[0]
         if kind == 'route':
             _, template, res_idx, suffix = op
-            if suffix:
-                self.app.add_route(template, self.resources[res_idx], suffix=suffix)
-            else:
-                self.app.add_route(template, self.resources[res_idx])
+            kw = {'suffix': suffix} if suffix else {}
+            if self.cfg.get('compile_now') and self.nops % 2:
+                kw['compile'] = True
+            self.app.add_route(template, self.resources[res_idx], **kw)
             self.model.add_route(template, res_idx, suffix)
         elif kind == 'sink':
             _, idx, pattern, flags, precompiled = op
@@ -193,9 +241,10 @@ def parse_allow(values):
     return sorted(items)
 
 
-def judge(alt, obs, method):
+def judge(alt, obs, method, cfg):
     """None if the observation satisfies this alternative, else a short mechanism label."""
     cls = alt['cls']
+    plain = untouched_status(cfg, cls, cls == 'responder' and bool(cfg['resources'][alt['res']].get('falsy')))
     t = obs['trace']
     st = obs['status']
     if obs['exc'] is not None:
@@ -205,13 +254,13 @@ def judge(alt, obs, method):
             if len(t) == 1 and t[0][:3] == ['res', alt['res'], alt['attr']]:
                 return 'responder-kwargs'
             return 'wrong-responder-ran'
-        return None if st == 200 else 'responder-status'
+        return None if st in plain else 'responder-status'
     if cls == 'sink':
         if t != [['sink', alt['idx'], alt['kwargs']]]:
             if len(t) == 1 and t[0][:2] == ['sink', alt['idx']]:
                 return 'sink-kwargs'
             return 'wrong-fallback-ran'
-        return None if st == 200 else 'sink-status'
+        return None if st in plain else 'sink-status'
     if t:
         return 'user-code-ran-unexpectedly'
     if cls == 'auto-options':
@@ -232,10 +281,10 @@ def judge(alt, obs, method):
         if method == 'OPTIONS':
             return None                       # what a static route answers to OPTIONS is not stated
         if alt.get('lenient'):
-            return None if st in (200, 404) else 'static-status'
+            return None if st in plain + (404,) else 'static-status'
         if alt['content'] is None:
             return None if st == 404 else 'static-missing-file-status'
-        if st != 200:
+        if st not in plain:
             return 'static-status'
         if method == 'HEAD':
             return None if obs['clen'] == str(len(alt['content'])) else 'wrong-static-route'
@@ -269,7 +318,7 @@ def check_request(rec, b, method, path, checkpoints=(), final=True):
         rec.violation('driver-raised', {'cfg': b.cfg, 'nops': b.nops, 'method': method, 'path': path, 'exc': repr(ex)})
         return
     stack = b.cfg['stack']
-    verdicts = [judge(alt, obs, method) for alt in exp['alts']]
+    verdicts = [judge(alt, obs, method, b.cfg) for alt in exp['alts']]
     ok = any(v is None for v in verdicts)
     alt = exp['alts'][verdicts.index(None)] if ok else exp['alts'][0]
     cls = alt['cls']
@@ -325,6 +374,12 @@ def check_request(rec, b, method, path, checkpoints=(), final=True):
             rec.count('cls.static-404-does-not-fall-through')
     if len(exp['alts']) > 1:
         rec.count('cls.several-routes-match')
+    mw = b.cfg.get('mw')
+    if mw:
+        if mw.get('status'):
+            rec.count('cls.preset-status.%s.%s' % (mw['hook'], cls))
+        if mw.get('allow') is not None and cls in ('auto-options', '405'):
+            rec.count('cls.preset-allow.%s.%s' % (mw['hook'], cls))
     if not final:
         rec.count('cls.request-between-adds')
     key = (stack, b.cfg['sink_first'], cls, method, path, exp['n_fallbacks'], repr(sorted(alt.items(), key=repr)))
@@ -343,6 +398,12 @@ def check_request(rec, b, method, path, checkpoints=(), final=True):
 # exhaustive families
 
 U5 = ['GET', 'POST', 'OPTIONS', 'VERSION-CONTROL', 'WEBSOCKET']
+MW_VARIANTS = [
+    None,
+    {'hook': 'request', 'status': 202, 'allow': None},
+    {'hook': 'resource', 'status': 202, 'allow': 'BOGUS, GET'},
+    {'hook': 'request', 'status': 404, 'allow': 'BOGUS', 'dependent': True},
+]
 
 
 def family_method_subsets():
@@ -362,13 +423,15 @@ def family_method_subsets():
                     attrs = [M.responder_name(m, 'x') for m in S] + [M.responder_name(m) for m in rest]
                 else:
                     attrs = [M.responder_name(m) for m in S] + [M.responder_name(m, 'x') for m in rest] + DECOYS
-                yield {
-                    'stack': stack, 'sink_first': bool(mask & 1) ^ bool(suffixed),
-                    'resources': [{'callable': sorted(attrs)}],
-                    'ops': [['sink', 0, '/', 0, False],
-                            ['static', 0, '/r0', 0, 'index.html', False],
-                            ['route', '/r0/{id}', 0, suffixed]],
-                }
+                for v, mw in enumerate(MW_VARIANTS):
+                    yield {
+                        'stack': stack, 'sink_first': bool(mask & 1) ^ bool(suffixed),
+                        'resources': [{'callable': sorted(attrs)}],
+                        'ops': [['sink', 0, '/', 0, False],
+                                ['static', 0, '/r0', 0, 'index.html', False],
+                                ['route', '/r0/{id}', 0, suffixed]],
+                        'mw': mw, 'own_router': v == 2 and stack == 'wsgi', 'compile_now': v == 1,
+                    }
 
 
 def family_custom_verbs():
@@ -383,11 +446,13 @@ def family_custom_verbs():
             for stack in ('wsgi', 'asgi'):
                 attrs = [M.responder_name(m, suffix) for m in S] + \
                         [M.responder_name(m, None if suffix else 'Item') for m in rest]
-                yield {'stack': stack, 'sink_first': bool(mask & 1), 'resources': [{'callable': sorted(attrs)}],
-                       'ops': [['sink', 0, '/', 0, False], ['route', '/r0/{id}', 0, suffix]]}
+                for mw in MW_VARIANTS[:2]:
+                    yield {'stack': stack, 'sink_first': bool(mask & 1), 'resources': [{'callable': sorted(attrs)}],
+                           'ops': [['sink', 0, '/', 0, False], ['route', '/r0/{id}', 0, suffix]], 'mw': mw}
 
 
-SUBSET_REQUESTS = [(m, '/r0/7') for m in U5 + ['PUT', 'DELETE', 'FOO', 'get', 'PURGE']] + [('GET', '/other'), ('PUT', '/r0')]
+SUBSET_REQUESTS = [(m, '/r0/7') for m in U5 + ['PUT', 'DELETE', 'FOO', 'get', 'PURGE']] + \
+                  [('GET', '/other'), ('PUT', '/r0'), ('GET', '/r0/common.txt/zz'), ('HEAD', '/r0/sub/common.txt')]
 
 
 def family_orders():
@@ -438,6 +503,34 @@ def family_readd_statics():
 
 READD_SINK_PATHS = ['/f/common.txt', '/f/only0.txt', '/f/cx', '/f', '/g']
 READD_STATIC_PATHS = ['/f/common.txt', '/f/sub/common.txt', '/f/sub/only1.txt', '/f/sub/only2.txt', '/f/only2.txt', '/f/sub']
+
+
+def family_branch_classes():
+    """Small fixed configurations that reach every branch class the floors ask for, independent of the random phase."""
+    for stack in ('wsgi', 'asgi'):
+        for sink_first in (True, False):
+            for mw in MW_VARIANTS[:2]:
+                yield {'stack': stack, 'sink_first': sink_first, 'mw': mw,
+                       'resources': [{'callable': ['on_get', 'on_post', 'on_get_item', 'on_report_item']},
+                                     {'callable': [], 'noncallable': ['on_put'], 'falsy': True},
+                                     {'callable': ['on_get_byID', 'on_delete_byid', 'on_websocket']}],
+                       'ops': [['sink', 0, r'/s2(/(?P<opt>\w+))?$', 0, False],
+                               ['route', '/r1/{id:int}', 0, None],
+                               ['route', '/r1/{id:int}/sub', 0, 'item'],
+                               ['static', 0, '/r2', 0, None, False],
+                               ['route', '/r2/{name}', 0, None],
+                               ['route', '/r2/x', 2, 'byID'],
+                               ['sink', 1, r'/s0/(?P<id>\d+)', re.I, True],
+                               ['route', '/{top}', 0, 'item'],
+                               ['route', '/r1', 2, None],
+                               ['route', '/empty', 1, None]]}
+
+
+BRANCH_REQUESTS = [('GET', '/r1/12'), ('POST', '/r1/042'), ('REPORT', '/r1/7/sub'), ('GET', '/r1/7/sub'), ('PUT', '/r1/7/sub'),
+                   ('OPTIONS', '/r1/7/sub'), ('GET', '/r1/abc'), ('GET', '/r2/x'), ('DELETE', '/r2/x'), ('GET', '/r2/é'),
+                   ('GET', '/r1'), ('OPTIONS', '/r1'), ('GET', '/zz'), ('GET', '/s2'), ('PUT', '/s2'), ('GET', '/s2/w'),
+                   ('GET', '/s2/w/z'), ('GET', '/S0/12'), ('GET', '/empty'), ('OPTIONS', '/empty'), ('PUT', '/empty'),
+                   ('GET', '/r2/common.txt/zz'), ('GET', '/r2/sub/common.txt')]
 
 
 def run_config_fixed(rec, root, cfg, requests, every_step):
@@ -580,8 +673,13 @@ def gen_config(rng):
             hints += [path, path + '/', path + '/extra', path.rsplit('/', 1)[0] or '/']
     hints += ['/', '/zz', '/r0/7', '/s0/12', '/st0/common.txt', '/abc/def.txt', '/r1/abc', '/r1/12', '/r2/x/sub',
               '/R0/x', '/r0/x', '/r0/X', '/St0/common.txt', '/ST0/common.txt', '/S0/12']
+    mw = None
+    if rng.random() < 0.35:
+        mw = {'hook': rng.choice(['request', 'resource']), 'status': rng.choice([None, 202, 202, 404, 201]),
+              'allow': rng.choice([None, None, 'BOGUS', 'GET, BOGUS', '']), 'dependent': rng.random() < 0.3}
     return {'stack': rng.choice(['wsgi', 'asgi']), 'sink_first': rng.random() < 0.5,
-            'resources': resources, 'ops': ops}, sorted(set(hints))
+            'resources': resources, 'ops': ops, 'mw': mw, 'own_router': rng.random() < 0.15,
+            'compile_now': rng.random() < 0.25}, sorted(set(hints))
 
 
 def pick_methods(rng, b, path):
@@ -641,6 +739,10 @@ def run(rec):
             for cfg in family_custom_verbs():
                 run_config_fixed(rec, root, cfg, reqs, every_step=False)
                 rec.count('exh.custom-verb-configs')
+        for cfg in family_branch_classes():
+            for _ in range(2):
+                run_config_fixed(rec, root, cfg, BRANCH_REQUESTS, every_step=True)   # every shard: tiny
+            rec.count('exh.branch-class-configs')
         for cfg in family_method_subsets():
             idx += 1
             if idx % rec.nshards != rec.shard:
@@ -651,7 +753,7 @@ def run(rec):
             idx += 1
             if idx % rec.nshards != rec.shard:
                 continue
-            reqs = [(m, p) for p in ORDER_PATHS for m in ('GET', 'POST' if idx % 2 else 'OPTIONS')]
+            reqs = [(('GET', 'POST', 'OPTIONS', 'PROPFIND')[(idx + i) % 4], p) for i, p in enumerate(ORDER_PATHS)]
             run_config_fixed(rec, root, cfg, reqs, every_step=True)
             rec.count('exh.order-configs')
         for fam, paths, counter in ((family_readd_sinks, READD_SINK_PATHS, 'exh.readd-sink-configs'),
@@ -672,7 +774,7 @@ def run(rec):
                      '2 sinks + 2 static routes + 1 route x 2 option values x 2 stacks, requests after every add'
                      % (U5, len(SUBSET_REQUESTS)))
         n = 0
-        while rec.budget_ok(0.85):
+        while n < 15 or rec.budget_ok(0.85):      # a minimum sized by count, the rest by budget
             cfg = run_random_config(rec, root, rec.rng)
             n += 1
             rec.count('random.configs')
@@ -695,10 +797,17 @@ def run(rec):
         rec.floor('cls.%s.readd-static-decisive' % stack, 40)
     rec.floor('exh.readd-sink-configs', 288)
     rec.floor('exh.readd-static-configs', 192)
-    rec.floor('exh.subset-configs', 188)
+    rec.floor('exh.subset-configs', 752)
+    for hook in ('request', 'resource'):
+        for cls in ('auto-options', '405', 'responder'):
+            rec.floor('cls.preset-status.%s.%s' % (hook, cls), 40)
+        for cls in ('auto-options', '405'):
+            rec.floor('cls.preset-allow.%s.%s' % (hook, cls), 40)
+    for cls in ('sink', 'static', '404'):
+        rec.floor('cls.preset-status.request.%s' % cls, 40)
     rec.floor('proc.custom-verbs', 1)
     rec.floor('proc.default-verbs', 1)
-    rec.floor('exh.custom-verb-configs', 62)
+    rec.floor('exh.custom-verb-configs', 124)
     for c in ('cls.mixed-case-suffix-responder', 'cls.mixed-case-suffix-405', 'cls.mixed-case-suffix-auto-options',
               'cls.custom-verb-responder', 'cls.custom-verb-405', 'cls.custom-verb-in-allow.405',
               'cls.custom-verb-in-allow.auto-options'):
